@@ -145,7 +145,22 @@ class Controller:
                 loss._call = _call
         self.reseed("step", self.position + 1)
 
+    def close_save_window(self):
+        """C18 run-loop sweep: the window of file-system operations that belongs to a checkpoint
+        write stays open until the next step of the algorithm (or the end of the run), so that
+        whatever the run loop does to the checkpoint *after* save_full_state returned is probed and
+        faulted like the write itself."""
+        if not getattr(self, "_window_open", False):
+            return
+        self._window_open = False
+        if self.plan["kind"] == "probe":
+            self.save_oplogs.append((list(self.fs.oplog), self.fs.user_writes))
+            if self.checkpoints:
+                self.checkpoints[-1]["bytes"] = self.fs.durable(self.meta["ckpt"])
+        self.fs.disarm()
+
     def on_step_done(self):
+        self.close_save_window()
         self.position += 1
         self.steps_here += 1
         d = self.params_digest(self.algo)
@@ -165,6 +180,7 @@ class Controller:
         return stop
 
     def before_save(self, algo):
+        self.close_save_window()
         self.saves_started += 1
         snap = refstate.snapshot(algo)
         params = self.params_digest(algo)
@@ -178,9 +194,10 @@ class Controller:
         return snap, params
 
     def after_save(self, algo, snap, params):
-        if self.plan["kind"] == "probe":
-            self.save_oplogs.append((list(self.fs.oplog), self.fs.user_writes))
-        self.fs.disarm()
+        if self.plan["kind"] == "probe" or (self.plan["kind"] == "fsfault" and self.fs.armed):
+            self._window_open = True
+        else:
+            self.fs.disarm()
         self.inflight = None
         rec = {"position": self.position, "snapshot": snap, "params": params, "bytes": self.fs.durable(self.meta["ckpt"])}
         self.checkpoints.append(rec)
@@ -209,14 +226,18 @@ def run_incarnation(fs, spec, meta, dtype, seed, base, plan, log, use_ckpt):
 
             def run(self, _orig=orig_run):
                 ctl.on_run_entry(self)
-                return _orig(self)
+                try:
+                    return _orig(self)
+                finally:
+                    ctl.close_save_window()
 
             def save_full_state(self, *a, _orig=orig_save, **k):
                 snap, params = ctl.before_save(self)
                 try:
                     r = _orig(self, *a, **k)
-                finally:
+                except BaseException:
                     fs.disarm()
+                    raise
                 ctl.after_save(self, snap, params)
                 return r
 
